@@ -64,13 +64,13 @@ func C17(c *Ctx) {
 		n = 1000000
 		chain = 64
 	}
-	configs := []string{"ForPost", "ForCondProbe", "While", "Infinite", "Continue", "ContinueWhile", "RangeInt", "RangeSlice", "Switch", "Nested", "Filter",
+	configs := []string{"ForPost", "ForCondProbe", "While", "Infinite", "Continue", "ContinueWhile", "RangeInt", "RangeSlice", "MapDeleteAhead", "MapClearAhead", "ChanManySkipped", "StringLong", "Switch", "Nested", "Filter",
 		"NestedCondInner", "NestedEndlessInner", "ThreeLevels", "FlatMap", "ManualPull", "RangeOtherInBody",
 		"rawFor", "rawWhileContinue", "rawLoopBreak", "rawCombineInLoop", "rawSharedInner", "rawRecvThenStretch", "rawRecvInWhileCombine"}
 	// configurations that also exist in the variant "yield at the first iteration as well": the long
 	// non-yielding stretch then comes AFTER a yield of the same loop run
 	withFirst := map[string]bool{"ForPost": true, "ForCondProbe": true, "While": true, "Infinite": true, "Continue": true, "ContinueWhile": true, "RangeInt": true,
-		"RangeSlice": true, "Switch": true, "Nested": true, "Filter": true, "NestedCondInner": true, "NestedEndlessInner": true, "ThreeLevels": true, "rawSharedInner": true, "FlatMap": true, "ManualPull": true, "RangeOtherInBody": true}
+		"RangeSlice": true, "MapDeleteAhead": true, "MapClearAhead": true, "ChanManySkipped": true, "StringLong": true, "Switch": true, "Nested": true, "Filter": true, "NestedCondInner": true, "NestedEndlessInner": true, "ThreeLevels": true, "rawSharedInner": true, "FlatMap": true, "ManualPull": true, "RangeOtherInBody": true}
 	type result struct {
 		Config string         `json:"config"`
 		N      int            `json:"n"`
@@ -147,8 +147,19 @@ func C17(c *Ctx) {
 			}
 			return
 		}
+		if cfg == "MapDeleteAhead" || cfg == "MapClearAhead" {
+			wantYields = res.Yields // how many entries survive depends on the map order; only stack use is judged
+		}
 		if res.Yields != wantYields {
 			c.Rep.HarnessError(fmt.Sprintf("%s: expected exactly %d yields, got %d", id, wantYields, res.Yields))
+			return
+		}
+		if cfg == "MapDeleteAhead" || cfg == "MapClearAhead" {
+			// the iterator passes over ~n removed entries inside ONE advance, where no probe can sit:
+			// judged by the stack limit of the child process alone (it survived)
+			c.Rep.Eval(1)
+			c.Rep.Distinct(cfgKey + "/survived-stack-limit")
+			samples[cfgKey] = fmt.Sprintf("survived with a 1 MiB stack limit, %d entries passed over inside one advance", n)
 			return
 		}
 		base, ok := res.Depths["10"]
